@@ -518,7 +518,7 @@ class _CtxSnapshot:
 def _vars_of(e, cache):
     i = e.get_id()
     if i in cache:
-        return cache[i]
+        return cache[i][1]
     out = set()
     stack = [e]
     seen = set()
@@ -532,7 +532,7 @@ def _vars_of(e, cache):
             out.add(t.decl().name())
         else:
             stack.extend(t.children())
-    cache[i] = out
+    cache[i] = (e, out)  # the term is kept alive: z3 re-uses the ids of collected terms (substituted queries are temporaries)
     return out
 
 
@@ -706,6 +706,8 @@ def run_harness(harness, tier="quick", seed=0, replay=None, verbose=True):
     log = (lambda *a: print(*a, flush=True)) if verbose else (lambda *a: None)
     findings = load_known_findings()
     cases = harness.cases(tier, seed)
+    if os.environ.get("VERIF_ONLY"):  # debugging aid: restrict to the cases whose name contains the string
+        cases = [c for c in cases if os.environ["VERIF_ONLY"] in c.name]
     feas = getattr(harness, "FEASIBILITY", "linear")
     max_paths = getattr(harness, "MAX_PATHS", {}).get(tier, 4000)
     runs = []
